@@ -10,8 +10,8 @@ CGS = 5                      # CLOSE_GROUP_SIZE; pinned by props/C11.v constants
 MAX_FETCH = 20               # MAX_PARALLEL_FETCH = K_VALUE; fetcher cases stay below it
 IMPORTS = "Require Import V.lib.Sha256 V.model.Closeness."
 THEOREMS = ["constants_consistent", "sha256_is_256_bit", "convert_is_identity", "distance_is_xor", "dist_sym",
-            "dist_zero_iff_digest_eq", "dist_bound", "dist_triangle", "dist_form_independent",
-            "sort_sorted", "sort_perm", "sort_prefix", "sort_by_address_is_by_key", "sort_error_iff",
+            "dist_zero_iff_digest_eq", "dist_zero_equal_or_collision", "dist_zero_of_equal_bytes", "dist_bound", "dist_triangle", "dist_form_independent",
+            "sort_sorted", "sort_perm", "sort_prefix", "sort_returns_n_nearest", "sort_by_address_is_by_key", "sort_error_iff",
             "returns_requested_number_or_error_refuted", "returns_requested_number_or_error_outside_known",
             "known_short_list_exact", "range_filter_exact", "fetcher_range_filter_exact",
             "fetcher_order_closest_first", "store_distance_index_exact", "closest_peers_spec",
@@ -244,6 +244,25 @@ def gen(ctx, binary):
         me = rng.choice(peers)
         rg = a_range({"t": "peerid", "b": me}, [bytes.fromhex(k) for k in keys])
         cases.append({"op": "store_count", "n": i, "self": me, "keys": keys, "range": str(rg)})
+    # SHA-256 padding boundaries through arbitrary-length raw keys / peer byte strings
+    for ln in [0, 1, 54, 55, 56, 57, 63, 64, 65, 118, 119, 120, 121, 128, 200]:
+        cases.append({"op": "addr", "a": {"t": rng.choice(["key", "peer", "keyfrom"]), "b": rb(rng, ln).hex()}})
+    # exhaustive small scope: every (|peers|, requested) with |peers| <= K and requested <= |peers|+2,
+    # for both sorters; every order of a 4-peer list with a duplicate (stability is observable through the tags)
+    K = 7 if quick else 12
+    for k in range(0, K + 1):
+        for n in range(0, k + 3):
+            ps = rng.sample(peers, k)
+            cases.append({"op": "sort_addr", "peers": ps, "a": typed(), "n": n})
+            if not quick or (k + n) % 2 == 0:
+                cases.append({"op": "closest", "peers": [[p, 2000 + j] for j, p in enumerate(ps)], "a": typed(),
+                              "num": n, "range": None})
+    import itertools
+    base = rng.sample(peers, 3)
+    four = [[base[0], 1], [base[1], 2], [base[0], 3], [base[2], 4]]
+    t = typed()
+    for perm in itertools.permutations(four):
+        cases.append({"op": "closest", "peers": [list(x) for x in perm], "a": t, "num": rng.choice([2, 3, 4]), "range": None})
     return cases
 
 
@@ -518,10 +537,14 @@ def run(ctx):
         "helpers, fetcher/store probes), ant_node::verif_hooks::calculate_get_closest_peers",
         "harness/crates/c11 (Rust driver), tools/props/C11.py (generator, oracle with hashlib SHA-256/SHA3-256, canonicaliser)",
         "third-party: libp2p kad closest_keys order, uint Debug/decimal printing, ruint from_str, blsttc key derivation"])
+    ctx.coq_make(["lib/Harness.v"])      # the generated case files import it; not in props/C11.v's cone
     binary = ctx.cargo_build("c11")
     corpus = ctx.corpus()
     resolve(ctx, binary, corpus)
     cases = corpus + ([] if ctx.replay or binary is None else gen(ctx, binary))
+    # another check may have regenerated gen/Consts.v while the harness was building: make sure the
+    # model the case files import is current (no-op otherwise)
+    ctx.coq_make(["model/Closeness.v", "lib/Sha256.v", "lib/Harness.v"])
     ctx.pipeline(cases, binary, oracle, model_term, IMPORTS, nontrivial=nontrivial, show=show, shard_size=60,
                  relation="NetworkAddress::distance / convert_distance_to_u256 / sort_peers_by_* / get_peers_in_range / "
                           "calculate_get_closest_peers / get_replicate_candidates / fetcher+store range filters == "
